@@ -23,12 +23,14 @@ import (
 	"fmt"
 	"os"
 	"reflect"
+	"regexp"
 	"sort"
 	"strings"
 	"time"
 
 	sdkmath "cosmossdk.io/math"
 	sdk "github.com/cosmos/cosmos-sdk/types"
+	ethcommon "github.com/ethereum/go-ethereum/common"
 	skywaytypes "github.com/palomachain/paloma/v2/x/skyway/types"
 	"github.com/palomachain/paloma/v2/zzverif/report"
 	"github.com/palomachain/paloma/v2/zzverif/world"
@@ -97,7 +99,10 @@ func must(err error) {
 func main() {
 	replay := flag.String("replay", "", "replay file")
 	flag.Parse()
-	n := 8
+	n := report.Workers()
+	if n > 8 {
+		n = 8
+	}
 	if *replay != "" {
 		n = 1
 	}
@@ -115,6 +120,38 @@ func swapCase(s string) string {
 		}
 	}
 	return string(b)
+}
+
+var hexAddr = regexp.MustCompile(`^0x[0-9a-fA-F]{40}$`)
+
+// mixedCase toggles the case of the first letter only (for a bech32 address
+// this gives a mixed-case, i.e. undecodable, spelling).
+func mixedCase(v string) string {
+	b := []byte(v)
+	start := 0
+	if hexAddr.MatchString(v) {
+		start = 2
+	}
+	for i := start; i < len(b); i++ {
+		switch {
+		case b[i] >= 'a' && b[i] <= 'z':
+			b[i] -= 32
+			return string(b)
+		case b[i] >= 'A' && b[i] <= 'Z':
+			b[i] += 32
+			return string(b)
+		}
+	}
+	return v
+}
+
+// caseVariants: other spellings of a valid value that differ in letter case
+// only. Whether they mean the same to the handlers is for the oracle to decide.
+func caseVariants(v string) []string {
+	if hexAddr.MatchString(v) {
+		return []string{"0x" + strings.ToLower(v[2:]), "0x" + strings.ToUpper(v[2:]), ethcommon.HexToAddress(v).Hex(), mixedCase(v)}
+	}
+	return []string{strings.ToUpper(v), strings.ToLower(v), mixedCase(v)}
 }
 
 func (e *env) discover() {
@@ -153,6 +190,19 @@ func (e *env) discover() {
 					e.r.Cap(fmt.Sprintf("field %s.%s of type %s has no value domain; not enumerated", ct.Name, f.Name, f.Type))
 					continue
 				}
+			}
+			if v, ok := ft.Dom[0].(string); ok {
+				dom := append([]interface{}{}, ft.Dom...)
+			variants:
+				for _, cv := range caseVariants(v) {
+					for _, have := range dom {
+						if have.(string) == cv {
+							continue variants
+						}
+					}
+					dom = append(dom, cv)
+				}
+				ft.Dom = dom
 			}
 			ct.Fields = append(ct.Fields, ft)
 		}
@@ -437,6 +487,8 @@ type caseT struct {
 	Sig    string
 	Fields string
 	C1, C2 map[string]interface{}
+	// display of the two claims (default: all overridden fields)
+	Show1, Show2 string
 }
 
 func show(v interface{}) string {
@@ -533,6 +585,9 @@ func (e *env) runCase(c caseT) {
 	o1, _, err1 := e.quorum(base.Ctx, c.T, same(c.C1, n))
 	o2, _, err2 := e.quorum(base.Ctx, c.T, same(c.C2, n))
 	m1, m2 := e.build(c.T, c.C1, e.w.Vals[0]), e.build(c.T, c.C2, e.w.Vals[0])
+	if c.Show1 == "" {
+		c.Show1, c.Show2 = showOv(c.C1), showOv(c.C2)
+	}
 	k1, k2 := attKey(m1), attKey(m2)
 	differs := o1.String() != o2.String()
 	pooled := bytes.Equal(k1, k2)
@@ -548,7 +603,7 @@ func (e *env) runCase(c caseT) {
 	}
 	r.Case(key)
 	if differs && len(r.Samples) < 4 && c.Base > 0 {
-		r.Sample(map[string]interface{}{"case": c.ID, "c1": showOv(c.C1), "c2": showOv(c.C2), "outcome1": o1.String(), "outcome2": o2.String(), "keys_differ": !pooled})
+		r.Sample(map[string]interface{}{"case": c.ID, "c1": c.Show1, "c2": c.Show2, "outcome1": o1.String(), "outcome2": o2.String(), "keys_differ": !pooled})
 	}
 	if differs && pooled && !(o1.submittable() && o2.submittable()) {
 		// one of the two claims is refused before it reaches Attest (stateless
@@ -581,7 +636,7 @@ func (e *env) runCase(c caseT) {
 	msg := fmt.Sprintf("base state %q, %s: c1 {%s} and c2 {%s} (all other fields equal) have the same attestation key %x but different effect:\n"+
 		"unanimous c1: votes %v state %s %v\nunanimous c2: votes %v state %s %v\nstores that differ: %v\n"+
 		"mixed run (v0 submits c2 first, v1 and v2 vote c1): votes %v, %d new attestation record(s) with %v votes, state %s %v: %s",
-		base.Name, c.T.Name, showOv(c.C1), showOv(c.C2), k1,
+		base.Name, c.T.Name, c.Show1, c.Show2, k1,
 		o1.Votes, o1.Digest, brief(err1), o2.Votes, o2.Digest, brief(err2), differing(o1, o2),
 		om.Votes, recs-recs0, votes, om.Digest, brief(errm), what)
 	r.Violate(c.Sig, msg, map[string]interface{}{"case": c.ID, "base": base.Name, "type": c.T.URL, "c1": json.RawMessage(j1), "c2": json.RawMessage(j2)})
@@ -646,13 +701,14 @@ func run(r *report.Run, shard, nshards int, replayFile string) {
 	e.domains()
 	e.setup()
 	e.discover()
-	r.Rule = "for every EthereumClaim implementer in the interface registry, every exported field found by reflection except Orchestrator/Metadata, every ordered pair of distinct values of the field's 3-4 value domain, every base state (token registered, batches open, light-node sale configured: 6 combinations): c1 and c2 are voted to quorum by 3 validators (signed txs through ante + router) and tallied by skyway.EndBlocker in two forks; if votes accepted or resulting state differ the attestation store keys must differ; a case is non-trivial when the outcomes differ"
+	r.Rule = "for every EthereumClaim implementer in the interface registry, every exported field found by reflection except Orchestrator/Metadata, every ordered pair of distinct values of the field's domain (3-4 values, plus for strings the upper / lower / mixed-case and for hex addresses the lower / upper / EIP-55 spellings of the valid value), every base state (token registered, batches open, light-node sale configured: 6 combinations): c1 and c2 are voted to quorum by 3 validators (signed txs through ante + router) and tallied by skyway.EndBlocker in two forks; if votes accepted or resulting state differ the attestation store keys must differ; a case is non-trivial when the outcomes differ. Collision search: per claim type the attestation keys of the full product of a token alphabet over all fields simultaneously are computed (no execution) and grouped; members of every group of >= 2 distinct tuples go through the same differential oracle"
 	r.Assumptions = []string{
 		"outcome = (per-vote accepted / rejected stage, digest of skyway store without the attestation records, bank, acc, feegrant, paloma-store, distribution stores); error texts are not compared",
 		"attestation key = []byte(ChainReferenceId) + GetAttestationKey(GetSkywayNonce(), ClaimHash()) as in keeper.Attest; cross-checked on every run against the record the handler wrote",
 		"weaker reading chosen: a pair counts only when each of the two claims has at least one vote accepted when voted on its own (a claim that stateless validation / ante / the handler refuses outright has no votes that could be pooled)",
 		"a field for which no pair changes the outcome in any base state may be absent from the hash (EventNonce is never read by the module; SkywayNonce is the nonce used)",
 		"value domains are keyed by field name (valid values incl. strings containing '/'); unknown fields get a generic domain by kind; a field of an unsupported kind or an unknown claim type makes the run non-exhaustive",
+		"collision search alphabet: free-form string fields (those whose ValidateBasic accepts a '/') take {valid, 2nd valid, \"\", a/b, .., ../valid, ./valid, valid/.., %2F, a%2Fb, mixed-case valid} (thorough: 16 tokens), other strings and numeric fields 2 values (thorough: strings 3); fields to which the key does not react on single-field variation (EventNonce) are held at their default, their omission is judged by the single-field stage",
 		"thorough tier: separator-shift pairs over every ordered pair / triple of string (and numeric middle) fields, reported under signature prefix sepshift:",
 	}
 	if shard == 0 {
@@ -690,6 +746,9 @@ func run(r *report.Run, shard, nshards int, replayFile string) {
 		cases = e.cases(true)
 	}
 	for i, c := range cases {
+		if strings.HasPrefix(want, "collision|") {
+			break
+		}
 		if want != "" {
 			if c.ID != want {
 				continue
@@ -703,10 +762,11 @@ func run(r *report.Run, shard, nshards int, replayFile string) {
 		}
 		e.runCase(c)
 	}
+	e.collisionSearch(shard, nshards, deadline, want)
 	var ne, nf, nk float64
 	for k, v := range e.effects {
 		ne += float64(v)
-		if !strings.HasPrefix(k, "sepshift:") {
+		if !strings.HasPrefix(k, "sepshift:") && !strings.HasPrefix(k, "collision:") {
 			r.Extra["pairs_outcome_differs."+k] = float64(v)
 		}
 	}
